@@ -55,11 +55,14 @@ fn main() {
     }
     let seed: u64 = std::env::var("VERIF_SEED").ok().and_then(|s| s.trim().parse::<i64>().ok()).map(|v| v as u64).unwrap_or(0);
     if !inner && replay.is_none() && std::env::var("VERIF_NO_SUPERVISOR").is_err() {
-        if props::find(&prop).is_none() {
-            engine::emit(&format!("unknown property {}", prop));
-            std::process::exit(2);
-        }
-        let code = engine::journal::supervise(&prop, &args, tier.name(), seed);
+        let level = match props::find(&prop) {
+            Some(d) => d.level,
+            None => {
+                engine::emit(&format!("unknown property {}", prop));
+                std::process::exit(2);
+            }
+        };
+        let code = engine::journal::supervise(&prop, level, &args, tier.name(), seed);
         std::process::exit(code);
     }
     engine::capture_stdout();
